@@ -174,8 +174,18 @@ HandleElementResult SaslManager::handleElement(const QDomElement &el)
         return Rejected;
     }
 
-    if (Success::fromDom(el)) {
-        finish(QXmpp::Success());
+    if (auto success = Success::fromDom(el)) {
+        // The server's final message (e.g. the SCRAM server signature) may be sent along with the
+        // success. The login only counts if the mechanism has completed and verified the server.
+        if ((success->additionalData.isEmpty() || m_saslClient->respond(success->additionalData)) &&
+            m_saslClient->isComplete()) {
+            finish(QXmpp::Success());
+        } else {
+            finish(AuthError {
+                u"Server sent success, but did not complete the SASL exchange"_s,
+                AuthenticationError { AuthenticationError::ProcessingError, {}, {} },
+            });
+        }
         return Finished;
     } else if (auto challenge = Challenge::fromDom(el)) {
         if (auto response = m_saslClient->respond(challenge->value)) {
@@ -275,7 +285,17 @@ HandleElementResult Sasl2Manager::handleElement(const QDomElement &el)
             return Finished;
         }
     } else if (auto success = Success::fromDom(el)) {
-        finish(std::move(*success));
+        // The additional data contains the server's final message (e.g. the SCRAM server signature).
+        // The login only counts if the mechanism has completed and verified the server.
+        if ((!success->additionalData || m_state->sasl->respond(*success->additionalData)) &&
+            m_state->sasl->isComplete()) {
+            finish(std::move(*success));
+        } else {
+            finish(AuthError {
+                u"Server sent success, but did not complete the SASL exchange"_s,
+                AuthenticationError { AuthenticationError::ProcessingError, {}, {} },
+            });
+        }
         return Finished;
     } else if (auto failure = Failure::fromDom(el)) {
         auto text = failure->text.isEmpty()
